@@ -68,6 +68,27 @@ add("C05", "E1",
     "write-back register to the same consumer) are skipped and counted.",
     "DESIGN.md §4 C05")
 
+add("C04", "E1",
+    "bounded-exhaustive kernel enumeration vs. independent longest-path DP on the exported graph",
+    "All kernels up to length 3 (thorough: 4) over the C05 alphabet (zero-latency instruction, ties, "
+    "chains starting at a separately modelled load, chains ending in the most expensive instruction, "
+    "no dependency) on synthetic models and every shipped example/test kernel on shipped models: the "
+    "reported critical path must lie in [L_exec, L_full] of an independent longest-chain DP over the "
+    "implementation's own graph, be >= every single latency, and the marked lines must form a chain "
+    "of graph edges whose length equals the reported total.",
+    "Trusted: mc/ref/dg.py longest_chain. The interval accepts both readings of the statement "
+    "for the last instruction's load stage. Graph correctness itself belongs to C03.",
+    "DESIGN.md §4 C04")
+add("C14", "E1",
+    "exhaustive enumeration of all rotation offsets, differential oracle",
+    "Every rotation offset of every generated kernel of length 2-3 (thorough: 4) over the C05 "
+    "alphabet and of every shipped example/test kernel body (quick: bodies <= 45 lines on one "
+    "model per ISA; thorough: all bodies on all shipped models, flags on/off) is analysed by the real "
+    "code and the set of cycles (members mapped to original positions, latency) and the LCD "
+    "figure are compared with rotation 0.",
+    "Differential oracle only; the reference for the cycles themselves is C05.",
+    "DESIGN.md §4 C14")
+
 NOT_YET = {}
 
 def main():
